@@ -14,6 +14,12 @@ From CSS Require Import Base.PyList ClassDB.Model ClassDB.Proofs Gen.Prelude Gen
 Import ListNotations.
 Open Scope Z_scope.
 
+(* what the invariant knows of the strategy sid0 a recorded rule object came from (the provenance carried by
+   ProofsCore.prov): where the contracts are switched on, it was handed out by the queue (a strategy of `pack`),
+   is a verification strategy, or a symmetry of the table *)
+Definition used (T : table) (C : Prop) (pack : list Z) (sid0 : Z) : Prop :=
+  C -> Contracts.handed T pack sid0 \/ In sid0 (t_sym T).
+
 Section Proofs.
 Variable T : table.
 Variable mode : Z.
@@ -32,9 +38,10 @@ Notation ev_ok := (ev_ok T C).
 Notation kids_sp := (kids_sp T).
 Notation pe_of := (pe_of T).
 Notation rule_good := (rule_good T).
-Notation labelled := (labelled T).
+Notation U := (used T C pack).
+Notation labelled := (labelled T U).
 Notation kids_nonempty := (kids_nonempty T C).
-Notation ar_spec := (ar_spec T C GP).
+Notation ar_spec := (ar_spec T C GP U).
 Notation RK := (ProofsCore.RK).
 Notation kids_lbl := (ProofsCore.kids_lbl).
 
@@ -68,11 +75,11 @@ Notation pop_answer_ok := (Inv.pop_answer_ok T C GP).
 Notation set_empty_ev_ok := (Inv.set_empty_ev_ok T C GP G_frame G_skip).
 Notation emit_neutral_ok := (Inv.emit_neutral_ok T C GP G_skip).
 Notation RK_leq := (ProofsCore.RK_leq T C GP).
-Notation labelled_leq := (ProofsCore.labelled_leq T C GP).
-Notation labelled_kids := (ProofsCore.labelled_kids T).
-Notation label_rule_ok := (ProofsCore.label_rule_ok T C GP G_frame).
-Notation for_rules_ok := (ProofsCore.for_rules_ok T C GP G_frame).
-Notation expand_with_ok := (ProofsCore.expand_with_ok T C GP G_frame).
+Notation labelled_leq := (ProofsCore.labelled_leq T C GP U).
+Notation labelled_kids := (ProofsCore.labelled_kids T U).
+Notation label_rule_ok := (ProofsCore.label_rule_ok T C GP U G_frame).
+Notation for_rules_ok := (ProofsCore.for_rules_ok T C GP U G_frame).
+Notation expand_with_ok := (ProofsCore.expand_with_ok T C GP U G_frame).
 Notation emits_ok := (ProofsCore.emits_ok T C GP G_skip).
 Notation rule_good_of_strategy := (ProofsCore.rule_good_of_strategy T).
 Notation kids_sp_empty := (ProofsCore.kids_sp_empty T).
@@ -212,7 +219,7 @@ Proof.
   intros HA I G Hl. unfold ruledb_add.
   assert ({(mode =? 0) = true} + {(mode =? 0) = false}) as [Em|Em] by (destruct (mode =? 0); auto); rewrite Em.
   - (* RuleDB / RuleDBForgetStrategy: the plain invariant by ProofsCore, the ghost predicate by G_base *)
-    destruct (ruledb_base_ok0 T C s sym start ends r (Inv0_of T C GP s I) G Hl) as ((W' & E' & F' & _) & X & R).
+    destruct (ruledb_base_ok0 T C U s sym start ends r (Inv0_of T C GP s I) G Hl) as ((W' & E' & F' & _) & X & R).
     unfold Inv.leq, Inv.Inv. split; [|split; [exact X|exact R]].
     split; [exact W'|]. split; [exact E'|]. split; [exact F'|].
     intros HC. apply (G_base HC Em s sym start ends r I G Hl). destruct I as (_ & _ & _ & Gh). apply (Gh HC).
@@ -257,7 +264,7 @@ Proof.
   assert (leq s1 (fold_left F (t_sym T) s1)) as L2.
   { apply (fold_sids_ok F s1 (t_sym T)); auto; [|apply incl_refl|apply leq_refl; auto].
     intros s2 sid Hsid L12 I2. unfold F, expand_with.
-    eapply (for_rules_ok s1 _ sid c (rules_from_strategy sid c)); auto; [|apply incl_refl|apply incl_refl|].
+    eapply (for_rules_ok s1 _ sid c (rules_from_strategy sid c)); auto; [|apply incl_refl|intros _; right; exact Hsid|apply incl_refl|].
     2:{ apply (RL_leq s1 s2 c label I1 L12 Hl1). }
     intros s3 start ends r L13 Hin I3 Hn Hlab.
     destruct ends as [|sl rest]; [apply fail_ok; auto|].
@@ -298,7 +305,8 @@ Proof.
     destruct a; auto.
     assert (RL s1 c label) as Hl1 by (apply (RL_leq s s1 c label I L1 Hl)).
     assert (leq s1 (expand_with T ar s1 c sid label)) as L2.
-    { apply expand_with_ok; auto. apply handed_kids_nonempty. intros HC. right. apply (Hsub HC). left; reflexivity. }
+    { apply expand_with_ok; auto; [apply handed_kids_nonempty; intros HC; right; apply (Hsub HC); left; reflexivity|].
+      intros HC. left. right. apply (Hsub HC). left; reflexivity. }
     eapply leq_trans; [exact L1|]. eapply leq_trans; [exact L2|].
     apply IH; [intros HC x Hx; apply (Hsub HC); right; exact Hx|apply (leq_inv _ _ L2)|apply (RL_leq s1 _ c label I1 L2 Hl1)].
 Qed.
@@ -381,7 +389,7 @@ Proof.
 Qed.
 
 (* ---------------------------------------------------- _inferral_expand *)
-Lemma first_rule_ok sid0 c rules : incl rules (rules_from_strategy sid0 c) ->
+Lemma first_rule_ok sid0 c rules : U sid0 -> incl rules (rules_from_strategy sid0 c) ->
   forall s label s' o, Inv s -> RL s c label ->
   first_rule T s c label rules = (s', o) ->
   leq s s' /\
@@ -392,10 +400,10 @@ Lemma first_rule_ok sid0 c rules : incl rules (rules_from_strategy sid0 c) ->
       (running s' = true -> labelled (cdb s') false start ends r)
   end.
 Proof.
-  induction rules as [|r t IH]; intros Hsub s label s' o I Hl; simpl.
+  intros HU. induction rules as [|r t IH]; intros Hsub s label s' o I Hl; simpl.
   - intros [= <- <-]. split; [apply leq_refl; auto|exact Logic.I].
   - destruct (label_rule T s c label r) as [s1 o1] eqn:E1.
-    assert (exists sid1, In r (rules_from_strategy sid1 c)) as Hpr by (exists sid0; apply Hsub; left; auto).
+    assert (exists sid1, In r (rules_from_strategy sid1 c) /\ U sid1) as Hpr by (exists sid0; split; [apply Hsub; left; auto|exact HU]).
     assert (incl t (rules_from_strategy sid0 c)) as Hsub' by (intros x Hx; apply Hsub; right; auto).
     destruct (label_rule_ok s c label r s1 o1 I Hl Hpr E1) as (L1 & Ho).
     destruct o1 as [[start ends]|].
@@ -422,7 +430,8 @@ Proof.
   - assert (C -> incl t pack) as Hsub' by (intros HC x Hx; apply (Hsub HC); right; exact Hx).
     destruct (skip_eqb skip sid); [apply IH; auto|].
     destruct (first_rule T s c label (rules_from_strategy sid c)) as [s1 o] eqn:E1.
-    destruct (first_rule_ok sid c _ (incl_refl _) _ _ _ _ I Hl E1) as (L1 & Ho).
+    assert (U sid) as HUsid by (intros HC; left; left; apply (Hsub HC); left; reflexivity).
+    destruct (first_rule_ok sid c _ HUsid (incl_refl _) _ _ _ _ I Hl E1) as (L1 & Ho).
     assert (Inv s1) as I1 by (apply (leq_inv _ _ L1)).
     eapply leq_trans; [exact L1|].
     destruct o as [[[start ends] r]|].
@@ -468,6 +477,7 @@ Proof.
   intros s1 sid Hsid L1 I1. apply expand_with_ok; auto.
   - apply add_rule_ok.
   - apply handed_kids_nonempty. intros HC. left. apply (Hsub HC). exact Hsid.
+  - intros HC. left. left. apply (Hsub HC). exact Hsid.
   - apply (RL_leq s s1 c label I L1 Hl).
 Qed.
 
@@ -617,7 +627,7 @@ Lemma Gtriv_forest : C -> (mode =? 0) = false -> forall (start : Z) (ends : list
   (d : @db Z) (r e : list (Z * list Z)) (tr : list event), Gtriv d r e tr -> Gtriv d r e (EvAdd start ends sid parent :: tr).
 Proof. intros; exact Logic.I. Qed.
 Lemma Gtriv_base : C -> (mode =? 0) = true -> forall (s : st) (sym : bool) (start : Z) (ends : list Z) (r : rule),
-  Inv0 s -> rule_good T r -> (running s = true -> labelled T (cdb s) sym start ends r) ->
+  Inv0 s -> rule_good T r -> (running s = true -> labelled T (used T C pack) (cdb s) sym start ends r) ->
   Gs Gtriv s -> Gs Gtriv (base_add T (emit (EvAdd start ends (r_sid r) (r_parent r)) s) start ends r).
 Proof. intros; exact Logic.I. Qed.
 Lemma Gtriv_init : C -> Gtriv init [] [] [].
